@@ -132,6 +132,10 @@ impl WakerList {
         // we only call register with mut access, thus we are safe.
         let meta = unsafe { &*self.ptr.as_ptr() };
         unsafe { meta.waker.register(waker) }
+        #[cfg(futures_buffered_verif)]
+        verif::probe(verif::Probe::AfterRegister {
+            base: self.ptr.as_ptr() as usize,
+        });
     }
 
     fn get(&self, index: usize) -> ManuallyDrop<Waker> {
@@ -154,14 +158,54 @@ impl WakerList {
     /// thread can call this) to be guaranteed elsewhere.
     pub(crate) unsafe fn pop(&self) -> ReadySlot<(usize, ManuallyDrop<Waker>)> {
         let queue = unsafe { &*ptr::addr_of!((*self.ptr.as_ptr()).queue) };
+        #[cfg(futures_buffered_verif)]
+        if verif::probe(verif::Probe::PopEnter {
+            base: self.ptr.as_ptr() as usize,
+        }) {
+            verif::probe(verif::Probe::PopExit {
+                base: self.ptr.as_ptr() as usize,
+                result: 1,
+                index: 0,
+            });
+            return ReadySlot::Inconsistent;
+        }
+        #[cfg(futures_buffered_verif)]
+        let base = self.ptr.as_ptr() as usize;
         match unsafe { queue.try_dequeue_unchecked() } {
             Ok(slot) => {
                 let slot = unsafe { &*slot.as_ptr() };
+                #[cfg(futures_buffered_verif)]
+                verif::probe(verif::Probe::PopMid {
+                    base,
+                    index: slot.index,
+                });
                 *slot.wake_lock.lock() = false;
+                #[cfg(futures_buffered_verif)]
+                verif::probe(verif::Probe::PopExit {
+                    base,
+                    result: 2,
+                    index: slot.index,
+                });
                 ReadySlot::Ready((slot.index, self.get(slot.index)))
             }
-            Err(TryDequeueError::Inconsistent) => ReadySlot::Inconsistent,
-            Err(TryDequeueError::Empty) => ReadySlot::None,
+            Err(TryDequeueError::Inconsistent) => {
+                #[cfg(futures_buffered_verif)]
+                verif::probe(verif::Probe::PopExit {
+                    base,
+                    result: 1,
+                    index: 0,
+                });
+                ReadySlot::Inconsistent
+            }
+            Err(TryDequeueError::Empty) => {
+                #[cfg(futures_buffered_verif)]
+                verif::probe(verif::Probe::PopExit {
+                    base,
+                    result: 0,
+                    index: 0,
+                });
+                ReadySlot::None
+            }
             Err(TryDequeueError::Busy) => unreachable!(),
         }
     }
@@ -208,12 +252,20 @@ mod slot {
 
         // Increment the reference count of the arc to clone it.
         unsafe fn clone_waker(waker: *const ()) -> RawWaker {
+            #[cfg(futures_buffered_verif)]
+            unsafe {
+                super::verif::vtable_probe(0, waker.cast(), meta_raw(waker.cast::<WakerItem>().cast_mut()));
+            }
             unsafe { meta_ref(waker.cast()).inc_strong() };
             RawWaker::new(waker, VTABLE)
         }
 
         // We don't need ownership. Just wake_by_ref and drop the waker
         unsafe fn wake(waker: *const ()) {
+            #[cfg(futures_buffered_verif)]
+            unsafe {
+                super::verif::vtable_probe(1, waker.cast(), meta_raw(waker.cast::<WakerItem>().cast_mut()));
+            }
             unsafe {
                 wake_by_ref(waker);
                 drop_waker(waker);
@@ -224,6 +276,10 @@ mod slot {
         // then call the stored waker to trigger a poll
         unsafe fn wake_by_ref(waker: *const ()) {
             let slot = waker.cast::<WakerItem>();
+            #[cfg(futures_buffered_verif)]
+            unsafe {
+                super::verif::vtable_probe(2, slot, meta_raw(slot.cast_mut()));
+            }
 
             let node = unsafe { &*slot };
 
@@ -240,6 +296,10 @@ mod slot {
 
         // Decrement the reference count of the Arc on drop
         unsafe fn drop_waker(waker: *const ()) {
+            #[cfg(futures_buffered_verif)]
+            unsafe {
+                super::verif::vtable_probe(3, waker.cast(), meta_raw(waker.cast::<WakerItem>().cast_mut()));
+            }
             let meta = unsafe { meta_ref(waker.cast()) };
             if meta.dec_strong() {
                 unsafe {
@@ -362,6 +422,9 @@ fn slice_offset() -> usize {
 unsafe fn drop_inner(p: *mut WakerHeader, capacity: usize) {
     let layout = WakerList::layout(capacity);
 
+    #[cfg(futures_buffered_verif)]
+    verif::probe(verif::Probe::Free { base: p as usize });
+
     // SAFETY: the pointer points to an aligned and init instance of `WakerHeader`
     unsafe { drop_in_place(p) };
 
@@ -433,6 +496,12 @@ impl WakerList {
             );
         }
 
+        #[cfg(futures_buffered_verif)]
+        verif::probe(verif::Probe::Alloc {
+            base: meta as usize,
+            cap,
+        });
+
         Self {
             ptr: unsafe { NonNull::new_unchecked(meta) },
             phantom: PhantomData,
@@ -464,4 +533,98 @@ fn abort(s: &str) -> ! {
 
     let _bomb = DoublePanic;
     panic!("{}", s);
+}
+
+/// Verification probes (compiled only with `--cfg futures_buffered_verif`).
+///
+/// Add-only instrumentation: reports allocation / release of the shared block, every
+/// waker-vtable entry together with the header it resolved to, and the race windows of
+/// `register` / `pop` to a callback installed by an external harness; lets the harness
+/// make `pop` answer `Inconsistent`; exposes the layout arithmetic.
+#[cfg(futures_buffered_verif)]
+pub mod verif {
+    use super::{slice_offset, WakerHeader, WakerItem, WakerList};
+    use core::sync::atomic::{AtomicUsize, Ordering};
+
+    #[derive(Clone, Copy, Debug, PartialEq, Eq)]
+    pub enum Probe {
+        /// a shared block for `cap` children was allocated at `base`
+        Alloc { base: usize, cap: usize },
+        /// the shared block at `base` is about to be released
+        Free { base: usize },
+        /// entry of a waker vtable function (`kind`: 0 clone, 1 wake, 2 wake_by_ref, 3 drop)
+        /// on the item at address `item`, whose header was resolved to `header`
+        Vtable {
+            kind: u8,
+            item: usize,
+            header: usize,
+            index: usize,
+        },
+        /// `register` has stored the task waker
+        AfterRegister { base: usize },
+        /// entry of `pop`; a `true` answer makes it return `Inconsistent` without touching the queue
+        PopEnter { base: usize },
+        /// a slot was dequeued, its "queued" flag is not cleared yet
+        PopMid { base: usize, index: usize },
+        /// `pop` is about to return (`result`: 0 empty, 1 inconsistent, 2 ready(index))
+        PopExit {
+            base: usize,
+            result: u8,
+            index: usize,
+        },
+    }
+
+    static HOOK: AtomicUsize = AtomicUsize::new(0);
+
+    /// Install (or remove) the probe callback.
+    pub fn set_hook(f: Option<fn(Probe) -> bool>) {
+        HOOK.store(f.map_or(0, |f| f as usize), Ordering::SeqCst);
+    }
+
+    pub(crate) fn probe(p: Probe) -> bool {
+        let h = HOOK.load(Ordering::SeqCst);
+        if h == 0 {
+            return false;
+        }
+        // SAFETY: only ever stored from a `fn(Probe) -> bool`
+        let f: fn(Probe) -> bool = unsafe { core::mem::transmute::<usize, fn(Probe) -> bool>(h) };
+        f(p)
+    }
+
+    pub(crate) unsafe fn vtable_probe(kind: u8, item: *const WakerItem, header: *mut WakerHeader) {
+        // the index is read from the item itself, exactly as `meta_raw` does
+        let index = unsafe { (*item).index };
+        probe(Probe::Vtable {
+            kind,
+            item: item as usize,
+            header: header as usize,
+            index,
+        });
+    }
+
+    /// sizes and alignments the pointer arithmetic of this module is built on
+    #[derive(Clone, Copy, Debug)]
+    pub struct LayoutInfo {
+        pub header_size: usize,
+        pub header_align: usize,
+        pub item_size: usize,
+        pub item_align: usize,
+        pub slice_offset: usize,
+    }
+
+    pub fn layout_info() -> LayoutInfo {
+        LayoutInfo {
+            header_size: core::mem::size_of::<WakerHeader>(),
+            header_align: core::mem::align_of::<WakerHeader>(),
+            item_size: core::mem::size_of::<WakerItem>(),
+            item_align: core::mem::align_of::<WakerItem>(),
+            slice_offset: slice_offset(),
+        }
+    }
+
+    /// `(size, align)` of the block allocated for `cap` children
+    pub fn layout_of(cap: usize) -> (usize, usize) {
+        let l = WakerList::layout(cap);
+        (l.size(), l.align())
+    }
 }
